@@ -42,6 +42,9 @@ MOLS_RARE = [
     "C1CO1", "C=CC=C", "CC(=O)OC(C)=O", "NCC(=O)O", "CN(C)C=O", "c1ccc2ccccc2c1", "OC(=O)c1ccccc1", "CCOC(=O)C", "C[Si](C)(C)C", "CCI", "[NH4+]", "CO",
     "CC(=O)Cl", "C[N+](C)(C)C", "OP(O)(O)=O",
 ]
+# chemically related neighbourhoods (ester / carbonate / carbamate / ether / amide): rules that look several bonds away
+MOLS_RELATED = ["COC(=O)OC", "CCOC(=O)OCC", "CNC(=O)OC", "CC(=O)OCC", "COC(=O)C=C", "COC(=O)c1ccccc1", "CC(=O)N(C)C", "CCOCC", "COCCOC", "CC(C)(C)O", "OCC(O)CO",
+                "C{[>][<]CC([>])C(=O)OC[<]}|gauss(150,0)|[H]", "C{[>][<]CCOC(=O)O[>][<]}|gauss(150,0)|C"]
 UNTYPABLE = ["C#N", "FC(F)F"]
 PARTIAL = ["N{[>][<]CC[>][<]}|gauss(30,0)|", "CC[$]", "{[][$]CC[$]; [$]C[$]}|gauss(30,0)|"]
 
@@ -51,6 +54,13 @@ def enumerate_cases(tier, seed):
     for m in mols:
         yield ("renumber", {"mol": m, "tier": tier})
     yield ("errors", {})
+    # typing histories over MOLECULES: for every ordered pair (A, B) the calls type(A), type(B), type(B again, new object)
+    # on one assigner; every result for B must equal B typed alone on a fresh assigner
+    allm = MOLS + MOLS_RARE + MOLS_RELATED
+    if tier == "quick":
+        allm = MOLS[:14] + MOLS_RARE[:: 2] + MOLS_RELATED
+    for i in range(len(allm)):
+        yield ("pair-history", {"first": allm[i], "others": allm})
     depth = 4 if tier == "thorough" else 3
     acts = ["D", "A", "B", "As", "An", "Xd", "Xa", "Rn", "Rb"]
     for first in acts:
@@ -90,6 +100,67 @@ def check_total(res, text, ff, mol, ctx):
             viol(res, f"C20|wrong-element|{ctx}", f"{text}: atom {i} ({a.GetSymbol()}) typed {p.bond_type_name} with mass {p.mass}", {"mol": text})
             return False
     return True
+
+
+def _reset_cache():
+    import gbigsmiles.forcefield_helper as fh
+
+    fh._global_assignment_class = None
+    fh._global_nonbonded_itp_file = None
+    fh._global_smarts_rule_file = None
+
+
+def _type_once(mg):
+    """('ok', assignment) | ('ff-error', n atoms in the partial assignment) | ('exc', type name)"""
+    import gbigsmiles.forcefield_helper as fh
+
+    try:
+        ff, mol = mg.get_forcefield_types()
+        if set(ff.keys()) != set(range(mol.GetNumAtoms())):
+            return ("not-total", len(ff))
+        return ("ok", assignment(ff, mol))
+    except fh.FfAssignmentError:
+        return ("ff-error", None)
+    except Exception as e:  # noqa
+        return ("exc", type(e).__name__)
+
+
+def eval_pair_history(res, data):
+    a_text = data["first"]
+    try:
+        mga = generate(a_text)
+    except Exception:  # noqa
+        res["nontrivial"] = None
+        return res
+    n = 0
+    bad = 0
+    for b_text in data["others"]:
+        try:
+            mgb = generate(b_text)
+        except Exception:  # noqa
+            continue
+        _reset_cache()
+        base = _type_once(mgb)
+        _reset_cache()
+        _type_once(mga)
+        seq = ["A"]
+        for step in ("B", "B again"):
+            seq.append(step)
+            got = _type_once(generate(b_text) if step == "B again" else mgb)
+            n += 1
+            res["transitions"] += 1
+            if got != base and bad < 3:
+                bad += 1
+                viol(res, "C20|depends-on-earlier-molecules", f"typing {b_text} ({step}) after typing {a_text} on the same assigner gives {got[0]}{'' if got[0] != 'ok' else ' with a different assignment'}; typed alone on a fresh assigner: {base[0]}", {"first": a_text, "second": b_text})
+        res["states"] += 1
+    _reset_cache()
+    res["traces"] = n
+    res["evals"] = n
+    res["nontrivial"] = ["pair-history", a_text, n]
+    res["outcomes"] = [f"pair-history:{a_text}"]
+    res["sample"] = {"first_molecule": a_text, "second_molecules": len(data["others"]), "typing_calls_compared": n}
+    res["extra"] = {"molecule_pair_histories": len(data["others"])}
+    return res
 
 
 def perms_for(n, tier):
@@ -217,6 +288,8 @@ def eval_case(kind, data):
         res["sample"] = {"untypable": UNTYPABLE, "partial": PARTIAL}
         return res
 
+    if kind == "pair-history":
+        return eval_pair_history(res, data)
     # history: explicit-state search over the module cache
     tmp = tempfile.mkdtemp(prefix="gbmc_c20_")
     try:
